@@ -50,6 +50,10 @@ type C10Cell struct {
 	Imports []IFile `json:"imports"`
 	// FailWrite (if > 0): the n-th write of a record to the store fails during the (first) import.
 	FailWrite int `json:"fail_write,omitempty"`
+	// Config says how the command finds the storage: "" = an absolute storage-path; "relative" = a storage-path relative
+	// to the configuration directory; "default" = none configured (the built-in default below the configuration
+	// directory); in the last two the command is started from some other directory.
+	Config string `json:"config,omitempty"`
 }
 
 func (f IFile) render(pubs []string) []byte {
@@ -355,7 +359,24 @@ func c10Run(cell C10Cell) (c10Result, error) {
 		if cell.FailWrite > 0 && fi == 0 {
 			env = []string{fmt.Sprintf("VERIF_HOOK_FAIL=store.store#%d", cell.FailWrite)}
 		}
-		code, so, se, err := rig.CLIWithEnv(env, w.Rig.Dir, "--import-slashing-protection", "--genesis-validators-root", rig.GVR, "--slashing-protection-file", file)
+		importArgs := []string{"--import-slashing-protection", "--genesis-validators-root", rig.GVR, "--slashing-protection-file", file}
+		var code int
+		var so, se string
+		switch cell.Config {
+		case "relative", "default":
+			// The daemon's storage is <configuration directory>/storage, which is what w runs on.
+			elsewhere := filepath.Join(root, "elsewhere")
+			if err := os.MkdirAll(elsewhere, 0o700); err != nil {
+				return res, err
+			}
+			sp := ""
+			if cell.Config == "relative" {
+				sp = "storage"
+			}
+			code, so, se, err = rig.CLIConfigured(env, root, sp, elsewhere, importArgs...)
+		default:
+			code, so, se, err = rig.CLIWithEnv(env, w.Rig.Dir, importArgs...)
+		}
 		if err != nil {
 			return res, err
 		}
@@ -463,6 +484,20 @@ func C10(tier string) int {
 		for _, f := range seqFiles {
 			for _, g := range seqFiles {
 				cells = append(cells, C10Cell{PriorA: p, PriorB: priorB, Imports: []IFile{f, g}})
+			}
+		}
+	}
+	// The storage is found through the configuration directory (a relative storage-path, or none at all) and the command
+	// is started from another directory: what is imported must protect the instance that runs on that configuration.
+	for _, cfg := range []string{"relative", "default"} {
+		for pi, p := range priors {
+			if pi%4 != 0 {
+				continue
+			}
+			for i, f := range files {
+				if tier == "thorough" || i%5 == 0 {
+					cells = append(cells, C10Cell{PriorA: p, PriorB: priorB, Imports: []IFile{f}, Config: cfg})
+				}
 			}
 		}
 	}
